@@ -4,6 +4,7 @@ import (
 	"crypto"
 	stdecdsa "crypto/ecdsa"
 	"crypto/elliptic"
+	"encoding/hex"
 	"errors"
 	"fmt"
 	"math/big"
@@ -329,6 +330,7 @@ func runC13(c *core.Ctx) {
 				vr, vs, err := stdecdsa.Sign(r, k.std, digest)
 				must(err)
 				good := derSig(vr, vs)
+				w := (curve.Params().N.BitLen() + 7) / 8
 				k.asn1Both(c, digest, good, "valid")
 				ri, si := derInt(vr), derInt(vs)
 				seq := func(parts ...[]byte) []byte {
@@ -369,6 +371,14 @@ func runC13(c *core.Ctx) {
 					"empty-input":           {},
 					"nested-seq":            seq(seq(tlv(2, ri, 0), tlv(2, si, 0))),
 					"swapped":               derSig(vs, vr),
+					// the same valid signature in OTHER encodings: none of them is an ASN.1 DER ECDSA-Sig-Value
+					"raw-fixed-width-r||s": append(vr.FillBytes(make([]byte, w)), vs.FillBytes(make([]byte, w))...),
+					"raw-minimal-r||s":     append(vr.Bytes(), vs.Bytes()...),
+					"raw-32bit-lengths":    append(append([]byte{0, 0, 0, byte(len(ri))}, ri...), append([]byte{0, 0, 0, byte(len(si))}, si...)...),
+					"der-inside-octet":     tlv(4, good, 0),
+					"der-hex-text":         []byte(hex.EncodeToString(good)),
+					"raw-fixed-width-s||r": append(vs.FillBytes(make([]byte, w)), vr.FillBytes(make([]byte, w))...),
+					"raw-with-04-prefix":   append([]byte{4}, append(vr.FillBytes(make([]byte, w)), vs.FillBytes(make([]byte, w))...)...),
 				}
 				for cls, sig := range cases {
 					k.asn1Both(c, digest, sig, cls)
